@@ -43,7 +43,7 @@ fn main() {
         "C11" => { pc11::run(ctx); pcrep::run_emitted(ctx, "C11"); pcmulti::unprotected_in_a_batch(ctx, "C11"); pcmulti::override_from_the_environment(ctx, "C11") }
         "C17" => { pc17::run(ctx); pc12::kth_candidate_crash_only(ctx, "C17"); pcmulti::unprotected_in_a_batch(ctx, "C17") }
         "C12" => pc12::run(ctx),
-        "C15" => pc15::run(ctx),
+        "C15" => { pc15::run(ctx); pcsize::short_scalar(ctx, "C15") }
         "C16" => { pc16::run(ctx); pcchan::run(ctx, "C16") }
         "C18" => { pc18::run(ctx); pc12::kth_candidate(ctx, "C18") }
         "C19" => { pc19::run(ctx); pcchan::run(ctx, "C19") }
